@@ -33,6 +33,7 @@ func init() {
 			{ID: "C11.R14", Floor: 4, Run: oldTargetProvenance, Text: "the old target in events is the table's: every value stored into EntityEvent.OldTarget is, on every path (through phis, locals, parameters, results), a RelationTarget read from a table — not the table's on some paths and zero on others"},
 			{ID: "C11.R15", Floor: 20, Run: flagArgsNotComputed, Text: "has-relation flags are not computed from the target (= C05.R13): batch and single operations emit the same target events"},
 			{ID: "C11.R16", Floor: 4, Run: c01r3, Text: "column copy loops leave the function's parameters alone (= C01.R3): the relation id reported in the event is the one the caller passed"},
+			{ID: "C11.R17", Floor: 1, Run: recycleAfterTableEvents, Text: "handles are recycled only after the removal events of their table were delivered (= C02.R21): the world a removal listener inspects is consistent"},
 		},
 	})
 }
